@@ -23,6 +23,8 @@ def with_nans(rng, a, stats):
             if c[d] in js: a['flat'][k] = float('nan')
     return a
 
+def _iv(v): return int(v) if isinstance(v, (int, float)) and v == v and abs(v) < 1e15 else 0
+
 def generate(rng, n, tier, stats):
     cases = []
     while len(cases) < n:
@@ -66,6 +68,13 @@ def generate(rng, n, tier, stats):
             with_nans(rng, a, stats)
             cases.append({'ins': [a], 'ops': [['fillna', rng.choice([0, -1.5, 7])]]})
         elif fam == 'setna':
+            if rng.random() < 0.3:
+                # cells that are close to the flag value without being equal to it ("exactly the cells equal to the given value")
+                if a['dtype'] == 'i':
+                    base = rng.choice([250000, 10 ** 6, 2 ** 24]); a['flat'] = [base + (_iv(v) % 4) for v in a['flat']]
+                else:
+                    base = rng.choice([999.0, -5000.0, 1e-9]); a['flat'] = [base * (1 + (_iv(v) % 4) / 2.0 ** 20) for v in a['flat']]
+                stats['setna_near_equal_cells'][a['dtype']] += 1
             pool = sorted(set(v for v in a['flat']))
             vs = rng.sample(pool, min(len(pool), rng.randint(1, 2))) if pool else [0]
             as_list = len(vs) > 1 or rng.random() < 0.5
